@@ -105,6 +105,9 @@ def check(ctx):
         idx = norm(s.targets[0].slice)
         key = ("one" if (gs[0][1] == "true") == (rename_id(norm(test), lst, "L") == "len(L) == 1") else "two")
         by[key] = rename_id(norm(s.value), lst, "L").replace(f"[{idx}]", "[i]").replace(" ", "")
+    if set(by) != {"one", "two"}:
+        raise AnalysisError("get_dual_edge_lengths no longer stores the dual length in two branches on the number of incident triangles: "
+                            f"the branch rule cannot be read off this code shape (found {sorted(by)})")
     ok = by.get("one") == "np.linalg.norm(dual_sites[L[0]]-edge_centers[i])" and \
         by.get("two") == "np.linalg.norm(dual_sites[L[0]]-dual_sites[L[1]])"
     ctx.ob("R07.3", "one incident triangle: |circumcentre - edge midpoint|; two: |circumcentre_0 - circumcentre_1|", ok, detail={str(k): v for k, v in by.items()},
